@@ -61,6 +61,8 @@ static Verdict run(const Case &c) {
                     d.push_back(e);
                 }
                 uint16_t seq = (uint16_t)op.arg(0); if (!seq) seq = 1;
+                // what the mapper orders must show up in B's report (C06 obliges A to emit it); checked in addition to what A really put on the wire
+                for (auto &e : d) if (e.dst == B) must.insert(QDesc{0, A, e.src, B});
                 std::vector<Ev> tx = sends_only(w.deliver(ia, mk_emit(A, M, A, M, seq, d)));
                 // shared segment: every frame A put on the wire reaches B unmodified (and A itself)
                 for (auto &e : tx) {
@@ -80,7 +82,9 @@ static Verdict run(const Case &c) {
                 int k = (int)op.arg(0);
                 Bytes f = k == 0 ? mk_simple(third(2), third(1), 0, OP_PROBE, third(2), third(1), 0)
                         : k == 1 ? mk_hello(third(3), 0, 9, M, M)
-                                 : mk_simple(A, third(1), 0, OP_TRAIN, A, third(1), 0);
+                        : k == 2 ? mk_simple(A, third(1), 0, OP_TRAIN, A, third(1), 0)
+                        : k == 3 ? mk_qlt(A, third(2), A, third(2), (uint16_t)op.arg(1, 1), 0x11, 0, 1)     // quick-discovery request from another station
+                                 : mk_qlt(A, M, A, M, (uint16_t)op.arg(1, 1), 0x0E, 0, 0);                  // the mapper fetches the icon in between
                 (void)w.deliver(ib, f); (void)w.deliver(ia, f);
                 break;
             }
@@ -139,7 +143,7 @@ int main(int argc, char **argv) {
                     o.blob.push_back((uint8_t)*gx::pick({0, 0, 0, 1, 2, 200}));
                     o.blob.push_back((uint8_t)*gx::pick({0, 0, 0, 1, 2, 3}));
                 }
-            } else if (k <= 7) { o.kind = K_NOISE; o.a = {*gx::range<int64_t>(0, 2)}; }
+            } else if (k <= 7) { o.kind = K_NOISE; o.a = {*gx::range<int64_t>(0, 4), *hg::seq_gen()}; }
             else { o.kind = K_QUERY_B; o.a = {*hg::seq_gen()}; }
             return o;
         })));
